@@ -12,6 +12,9 @@ From RV Require Import Proofs.StunProofs.
 From RV Require Import Gen.IceCandStr.
 From RV Require Import Model.Candidate.
 From RV Require Import Proofs.CandidateProofs.
+From RV Require Import Gen.TurnConsts.
+From RV Require Import Model.Turn.
+From RV Require Import Proofs.TurnProofs.
 Import ListNotations.
 Open Scope Z_scope.
 
@@ -148,3 +151,25 @@ Proof. exact candidate_print_roundtrip. Qed.
 Theorem C16_number_roundtrip : forall max n, 0 <= n <= max -> max < 10 ^ 20 ->
   parse_uint max (show_num n) = Some n.
 Proof. exact parse_show. Qed.
+
+(* ------------------------------------------------------------------ TURN long-term credentials
+   `hash` is MD5 as an explicit function argument.  The authenticated Allocate request that
+   TurnClient::allocate sends after the 401 challenge carries MESSAGE-INTEGRITY computed under
+   MD5(user ":" realm ":" pass) over the message up to MI (RFC 5389 15.4 / RFC 5766) *)
+Theorem C16_turn_allocate_integrity : forall mac hash txid user realm nonce pass,
+  mac20 mac -> wf_txid txid -> wf_text user -> wf_text realm -> wf_text nonce ->
+  let out := allocate_auth_bytes mac hash txid user realm nonce pass in
+  let off := Z.to_nat (20 + zlen (cbs (attr_chunks (allocate_auth txid user realm nonce)))) in
+  firstn 24 (skipn off out) =
+    be16 ATTR_MESSAGE_INTEGRITY ++ be16 20
+    ++ mac (hash (user ++ [58] ++ realm ++ [58] ++ pass))
+           (write_length_field (firstn off out) (Z.of_nat off + 24 - 20)).
+Proof. exact turn_allocate_integrity. Qed.
+
+Theorem C16_turn_allocate_decodes : forall mac hash txid user realm nonce pass,
+  mac20 mac -> wf_txid txid -> wf_text user -> wf_text realm -> wf_text nonce ->
+  zlen (allocate_auth_bytes mac hash txid user realm nonce pass) < 65556 ->
+  exists d, decode (allocate_auth_bytes mac hash txid user realm nonce pass) = DOk d /\
+    d_method d = StunMethod_Allocate /\ d_class d = StunClass_Request /\ d_txid d = txid /\
+    d_realm d = Some realm /\ d_nonce d = Some nonce /\ d_lifetime d = Some DEFAULT_TURN_LIFETIME.
+Proof. exact turn_allocate_decodes. Qed.
